@@ -120,6 +120,10 @@ func Reference(root ipld.Link, sel datamodel.Node, o RefOpts) *RefResult {
 	}
 	ls := cidlink.DefaultLinkSystem()
 	ls.TrustedStorage = true
+	// the identity ADL used by interpret-as selectors of the harness (C22)
+	ls.KnownReifiers = map[string]linking.NodeReifier{"adl1": func(_ linking.LinkContext, n datamodel.Node, _ *linking.LinkSystem) (datamodel.Node, error) {
+		return n, nil
+	}}
 	ls.StorageReadOpener = func(lc linking.LinkContext, l ipld.Link) (io.Reader, error) {
 		path := lc.LinkPath.String()
 		ev := LinkEvent{Path: path, Link: l}
